@@ -535,6 +535,22 @@ theorem litOne_ref (G : Tables) (d : DState) (ws : List Nat) (hv : View B eo d w
     rw [hw]
     exact ⟨rfl, hv'⟩
 
+theorem le32_lt (bytes : List Nat) (hb : ∀ b ∈ bytes, b < 256) (o : Nat) : le32 bytes o < 4294967296 := by
+  have g : ∀ k, bytes.getD k 0 < 256 := by
+    intro k
+    rw [List.getD_eq_getElem?_getD]
+    cases hk : bytes[k]? with
+    | none => simp
+    | some x => simpa using hb x (List.mem_of_getElem? hk)
+  have := g o; have := g (o + 1); have := g (o + 2); have := g (o + 3)
+  unfold le32
+  omega
+
+theorem view_word_lt {d : DState} {ws : List Nat} (hv : View B eo d ws) (k : Nat) (hk : k < ws.length) :
+    ws.getD k 0 < 4294967296 := by
+  rw [← hv.words k hk]
+  exact le32_lt B hv.bytesOk _
+
 theorem litTwo_ref (d : DState) (ws : List Nat) (hv : View B eo d ws) :
     Refines B eo (litTwo d) (Spec.lit2 ws) := by
   unfold litTwo bit64 Spec.lit2
@@ -567,7 +583,12 @@ theorem litTwo_ref (d : DState) (ws : List Nat) (hv : View B eo d ws) :
     | cons hi t' =>
       obtain ⟨d2, hw2, hv2⟩ := word_cons d1 hi t' hv1
       rw [hw2]
-      exact ⟨rfl, hv2⟩
+      have hlo := view_word_lt hv 0 (by simp)
+      have hhi := view_word_lt hv 1 (by simp)
+      simp only [List.getD_eq_getElem?_getD, List.getElem?_cons_zero, List.getElem?_cons_succ, Option.getD_some] at hlo hhi
+      refine ⟨?_, hv2⟩
+      show PRes.ok (Operand.q (hi * 4294967296 + lo)) = PRes.ok (Operand.q (hi % 4294967296 * 4294967296 + lo % 4294967296))
+      rw [Nat.mod_eq_of_lt hlo, Nat.mod_eq_of_lt hhi]
 
 theorem parseLiteral_ref (G : Tables) (τ : Tracker) (idx ty : Nat) (d : DState) (ws : List Nat) (hv : View B eo d ws) :
     Refines B eo (parseLiteral G τ idx ty d) (Spec.literal G τ ty ws) := by
